@@ -128,6 +128,16 @@ pub fn scenario(mode: &str, pool_size: u32, progs: &[&str]) -> Scenario {
     servers[0].faults.push(Fault { on: Matcher::Contains("KILL!".into()), kind: FaultKind::CloseAfterBytes(40), once: false });
     servers[0].gate = Gate::Off;
     let mut actors: Vec<_> = progs.iter().enumerate().map(|(i, p)| program(i, p, mode == "transaction").actor()).collect();
+    // the server-side reset happens once every other client is done, i.e. while all server connections
+    // sit idle in the pool; the resetting client's three statements then use up the dead ones
+    let n_main = actors.len();
+    for (i, p) in progs.iter().enumerate() {
+        if *p == "srv-reset-idle" {
+            let others: Vec<usize> = (0..n_main).filter(|j| *j != i).collect();
+            let k = actors[i].steps.iter().position(|s| matches!(s, Step::KillServerConns(_))).unwrap();
+            actors[i].steps.insert(k, Step::Wait(Cond::ActorsDone(others)));
+        }
+    }
     add_probe(&mut actors, pool_size as usize);
     Scenario {
         name: format!("C04 mode={} pool_size={} progs={}", mode, pool_size, progs.join("+")),
@@ -363,7 +373,7 @@ pub fn build(tier: &str) -> SimCheck {
     SimCheck {
         scenarios,
         oracle: Box::new(oracle),
-        bound: if thorough { 2 } else { 1 },
+        bound: if thorough { 3 } else { 2 },
         limits: Limits { max_wall_s: if thorough { 1500.0 } else { 50.0 }, ..Default::default() },
         rule: "scenario = pool mode x pool_size {1,2} x (pool_size+1 or +2) client programs (normal, aborts by hard drop/FIN mid-transaction, mid-COPY, mid-batch, server-side errors, server closing mid-reply, server-failed COPY, server dropping its idle pooled connections) plus hold-past-connect_timeout with/without checkout_failure_limit; all schedules with <= bound deviations; then pool_size simultaneous probe transactions and a pooler-state probe; distinct = distinct end-to-end histories".into(),
         assumptions: vec![
